@@ -6,7 +6,7 @@ use std::{
 };
 
 use crate::{
-    datalog::{self, SymbolTable, TemporarySymbolTable},
+    datalog::{self, escape_string, SymbolTable, TemporarySymbolTable},
     error,
 };
 
@@ -374,7 +374,7 @@ impl fmt::Display for Term {
         match self {
             Term::Variable(i) => write!(f, "${}", i),
             Term::Integer(i) => write!(f, "{}", i),
-            Term::Str(s) => write!(f, "\"{}\"", s),
+            Term::Str(s) => write!(f, "\"{}\"", escape_string(s)),
             Term::Date(d) => {
                 let date = time::OffsetDateTime::from_unix_timestamp(*d as i64)
                     .ok()
@@ -415,7 +415,7 @@ impl fmt::Display for Term {
                     .iter()
                     .map(|(key, term)| match key {
                         MapKey::Integer(i) => format!("{i}: {}", term),
-                        MapKey::Str(s) => format!("\"{s}\": {}", term),
+                        MapKey::Str(s) => format!("\"{}\": {}", escape_string(s), term),
                         MapKey::Parameter(s) => format!("{{{s}}}: {}", term),
                     })
                     .collect::<Vec<_>>();
